@@ -37,3 +37,37 @@ impl Rng {
         if n == 0 { 0 } else { self.next() % n }
     }
 }
+
+/// Cut a batch in every listed subscription / update-feed loop (manual mode) and wait until each
+/// of them has flushed at a generation that is not older than this cut.  A loop that entered its
+/// select after the bump took the bumped value as its baseline, so the generation is bumped again
+/// every 1.5 s; flushes are attributed to the loop that made them (hook FLUSHED_AT), so a fast
+/// loop flushing twice cannot stand in for a slow one.
+pub async fn flush_loops(ids: &[uuid::Uuid], secs: u64) -> bool {
+    use klukai_types::updates::verif_hooks as vh;
+    use std::sync::atomic::Ordering::SeqCst;
+    use std::time::{Duration, Instant};
+    if ids.is_empty() {
+        return true;
+    }
+    let target = vh::FLUSH_GEN.fetch_add(1, SeqCst) + 1;
+    let deadline = Instant::now() + Duration::from_secs(secs);
+    let mut bumped = Instant::now();
+    loop {
+        let ok = {
+            let m = vh::FLUSHED_AT.lock().unwrap();
+            ids.iter().all(|id| m.get(id).copied().unwrap_or(0) >= target)
+        };
+        if ok {
+            return true;
+        }
+        if Instant::now() > deadline {
+            return false;
+        }
+        if bumped.elapsed() > Duration::from_millis(1500) {
+            vh::FLUSH_GEN.fetch_add(1, SeqCst);
+            bumped = Instant::now();
+        }
+        tokio::time::sleep(Duration::from_millis(3)).await;
+    }
+}
